@@ -23,6 +23,7 @@ type verifRoutingScn struct {
 	Unifier  bool     `json:"unifier"`
 	Route    string   `json:"route"`
 	D        []string `json:"D"`
+	Relist   string   `json:"relist"`
 	Chunked  bool     `json:"chunked"`
 }
 
@@ -81,7 +82,11 @@ func TestVerif_Routing(t *testing.T) {
 		if len(sc.D) > 0 {
 			for _, be := range stk.backends {
 				if verifHas(sc.D, be.Name) {
-					be.SetModelsOpenAI([]string{"m3", "m2"})
+					if sc.Relist == "empty" {
+						be.SetModelsOpenAI([]string{})
+					} else {
+						be.SetModelsOpenAI([]string{"m3", "m2"})
+					}
 					be.HealthStatus.Store(503)
 				}
 			}
